@@ -47,8 +47,8 @@ pub(crate) broadcast proof fn lemma_req_view(r: IppRequestResponse)
     {'op': 'fn', 'path': 'IppRequestResponse::header', 'ret': 'r', 'spec': '    ensures *r == self.shdr(),'},
     {'op': 'fn', 'path': 'IppRequestResponse::attributes', 'ret': 'r', 'spec': '    ensures *r == self.sattrs(),'},
     {'op': 'fn', 'path': 'IppRequestResponse::to_bytes', 'ret': 'r',
-     'spec': '''    requires groups_wf(self.sattrs().sgroups()),
-    ensures exists|b: Seq<u8>, ops: Seq<String>, others: Seq<(int, Seq<String>)>|
+     'spec': '''    requires groups_sizes(self.sattrs().sgroups()),
+    ensures groups_wf(self.sattrs().sgroups()) ==> exists|b: Seq<u8>, ops: Seq<String>, others: Seq<(int, Seq<String>)>|
         buf_seq(&r) == spec_header_enc(self.shdr()) + b && #[trigger] attrs_enc_ok(self.sattrs().sgroups(), b, ops, others),'''},
     {'op': 'fn', 'path': 'IppRequestResponse::into_payload', 'ret': 'r', 'spec': '    ensures r == self.spayload(),'},
 ]
